@@ -65,6 +65,8 @@ type OutOpts struct {
 	SkipDefaults   bool // do not assert default application
 	SkipAddProps   bool
 	AddPropsTrueNo bool // F20: additionalProperties:true is never collected
+	NullObjZero    bool // F28: null for a nullable object may decode to a zero struct
+	NamedArrayAnon bool // inline object items of a named array type are anonymous structs: nothing is collected/defaulted
 }
 
 // CompareOut compares the input document with the JSON re-marshalled from the decoded Go value.
@@ -75,8 +77,10 @@ func CompareOut(s *sg.Schema, in, out any, o OutOpts) []OutDiff {
 			diffs = append(diffs, OutDiff{path, kind, msg})
 		}
 	}
+	anon := 0 // >0 while inside the inline items of a named (referenced or root) array type
 	var cmp func(s *sg.Schema, in, out any, path string, depth int)
 	cmp = func(s *sg.Schema, in, out any, path string, depth int) {
+		viaRef := depth == 0 || (s != nil && s.Ref != "")
 		s = s.Resolve()
 		if s == nil || depth > 60 {
 			return
@@ -85,6 +89,9 @@ func CompareOut(s *sg.Schema, in, out any, o OutOpts) []OutDiff {
 			return
 		}
 		if in == nil {
+			if _, isObj := out.(jsonx.Obj); isObj && o.NullObjZero && len(mergedView(s).Props) > 0 {
+				return
+			}
 			if out != nil && !IsEmptyValue(out) {
 				add(path, "nullable", fmt.Sprintf("null decoded to %s", jsonx.Marshal(out)))
 			}
@@ -111,7 +118,7 @@ func CompareOut(s *sg.Schema, in, out any, o OutOpts) []OutDiff {
 				pp := path + "/" + p.Name
 				rp := p.S.Resolve()
 				if !inHas || (inV == nil && p.S.HasDefault) {
-					if p.S.HasDefault && !o.SkipDefaults {
+					if p.S.HasDefault && !o.SkipDefaults && anon == 0 {
 						if outHas {
 							if !jsonx.Equal(outV, p.S.Default) {
 								add(pp, "default", fmt.Sprintf("absent property decoded to %s, default is %s", jsonx.Marshal(outV), jsonx.Marshal(p.S.Default)))
@@ -139,7 +146,7 @@ func CompareOut(s *sg.Schema, in, out any, o OutOpts) []OutDiff {
 					extra = append(extra, kv)
 				}
 			}
-			if allows && !o.SkipAddProps {
+			if allows && !o.SkipAddProps && anon == 0 {
 				if s.AddPropsBool != nil && *s.AddPropsBool && o.AddPropsTrueNo {
 					// known finding F20 modelled: nothing collected
 				} else {
@@ -154,7 +161,7 @@ func CompareOut(s *sg.Schema, in, out any, o OutOpts) []OutDiff {
 				}
 			}
 			for _, kv := range tout {
-				if view.Prop(kv.K) == nil && kv.K != "AdditionalProperties" {
+				if view.Prop(kv.K) == nil && kv.K != "AdditionalProperties" && !tin.Has(kv.K) {
 					add(path+"/"+kv.K, "unexpected", "key appears only in the output")
 				}
 			}
@@ -170,6 +177,11 @@ func CompareOut(s *sg.Schema, in, out any, o OutOpts) []OutDiff {
 			if len(tin) != len(tout) {
 				add(path, "changed", fmt.Sprintf("array length %d came back as %d", len(tin), len(tout)))
 				return
+			}
+			enter := o.NamedArrayAnon && s.Items != nil && s.Items.Ref == "" && (viaRef || anon > 0)
+			if enter {
+				anon++
+				defer func() { anon-- }()
 			}
 			for i := range tin {
 				if s.Items != nil {
